@@ -242,4 +242,5 @@ def TEXT(value, format_text):
 def TRIM(value):
     if not isinstance(value, string_types):
         return value
-    return re.sub(' {2,}', ' ', value).strip()
+    # only the space character is trimmed: strip() without argument also removes tabs and newlines
+    return re.sub(' {2,}', ' ', value).strip(' ')
